@@ -1,7 +1,9 @@
 import CogentModel.Json
 import CogentModel.Model.RateMatrix
 import CogentModel.Model.Expm
-open CogentModel CogentModel.RateMatrix CogentModel.Expm
+import CogentModel.Model.PathProcess
+import CogentModel.Gen.C05Inst
+open CogentModel CogentModel.RateMatrix CogentModel.Expm CogentModel.PathProcess CogentModel.C05Gen
 
 def jVec (j : J) : Except String (Vec Rat) := do return (← j.toListOf J.toRat).toArray
 def jMat (j : J) : Except String (Mat Rat) := do return ((← j.toListOf jVec)).toArray
@@ -29,8 +31,75 @@ def residual (n : Nat) (A B C : Mat Rat) : Rat :=
   let M := matSub n (matMul n A B) C
   (List.range n).foldl (fun m i => (List.range n).foldl (fun m j => let x := absR (mget M i j); if m < x then x else m) m) 0
 
+def backendName : Backend → String
+  | .pade => "pade"
+  | .fast => "fast"
+  | .checked => "checked"
+  | .eigenPade e => "eigenPade(" ++ backendName e ++ ")"
+
+def errName : ErrKind → String
+  | .arithmetic => "arithmetic"
+  | .linalg => "linalg"
+  | .other => "other"
+
+/-- outcome of a run: which exponentiator object is used (`E` = its name) or the kind of exception that escapes -/
+def outcomeJ (r : Except ErrKind String) : J :=
+  match r with
+  | .ok s => J.str s
+  | .error k => J.str ("raise:" ++ errName k)
+
+def parseOutcome (tag : String) (s : String) : Except String (Except ErrKind String) :=
+  match s with
+  | "ok" => pure (.ok tag)
+  | "arithmetic" => pure (.error .arithmetic)
+  | "linalg" => pure (.error .linalg)
+  | "other" => pure (.error .other)
+  | k => throw s!"bad outcome {k}"
+
 def handle (cmd : String) (j : J) : Except String J :=
   match cmd with
+  | "instbox" => do
+    -- the hand model's mask and the mask of the TRANSLATED predicates on the same words
+    let words ← jNatMat (← j.get "words")
+    let g ← (← j.get "gap").toNat
+    let gm := (← jNatVec (← j.get "gapmotif")).toList
+    let codon ← (← j.get "codon").toBool
+    let gen : Mat Bool := tab words.size fun a b =>
+      if codon then Gen.C05Inst.codonIsInstantaneous Gen.C05Inst.codonLongIndels gm (wordAt words a) (wordAt words b)
+      else Gen.C05Inst.isInstantaneous Gen.C05Inst.longIndels gm (wordAt words a) (wordAt words b)
+    pure (J.obj [("hand", boolMatJ (instMask codon g words)), ("gen", boolMatJ gen)])
+  | "expselect" => do
+    let expm ← (← j.get "expm").toStr
+    let nm := fun (o : Option Backend) => match o with | some b => J.str (backendName b) | none => J.null
+    pure (J.obj [("hand", nm (backendFor expm)), ("gen", nm (Gen.C05Inst.expSelect expm))])
+  | "eigenpade" => do
+    -- _EigenPade(eigen=<inner>)(Q) given the outcome of the inner constructor on Q
+    let inner ← (← j.get "inner").toStr
+    let o ← parseOutcome inner (← (← j.get "outcome").toStr)
+    let b ← match inner with
+      | "fast" => pure Backend.fast
+      | "checked" => pure Backend.checked
+      | k => throw s!"bad inner {k}"
+    let other : Except ErrKind String := .error .other
+    let fast := if inner = "fast" then o else other
+    let checked := if inner = "checked" then o else other
+    let hand := runBackend fast checked "pade" (.eigenPade b)
+    let gen := Gen.C05Inst.eigenPadeCall (runBackend fast checked "pade" b) (runBackend fast checked "pade" Gen.C05Inst.eigenPadeFallback)
+    pure (J.obj [("hand", outcomeJ hand), ("gen", outcomeJ gen)])
+  | "path" => do
+    let n ← (← j.get "n").toNat
+    let mp ← jVec (← j.get "mp")
+    let Ps ← (← j.get "Ps").toListOf jMat
+    pure (J.obj [("dists", J.arr ((pathDists n mp Ps).map vecJ)),
+      ("viaProduct", vecJ (vecMat n mp (pathProduct n Ps)))])
+  | "mixens" => do
+    let n ← (← j.get "n").toNat
+    let pi ← jVec (← j.get "pi")
+    let Q ← jMat (← j.get "Q")
+    let t ← (← j.get "t").toRat
+    let w ← jVec (← j.get "w")
+    let r ← jVec (← j.get "r")
+    pure (J.obj [("ens", J.ofRat (mixtureENS n pi Q t w r)), ("rate", J.ofRat (ensRate n pi Q))])
   | "inst" => do
     let words ← jNatMat (← j.get "words")
     let g ← (← j.get "gap").toNat
